@@ -29,9 +29,9 @@ func TestMain(m *testing.M) {
 }
 
 var ev = vlib.NewEvidence("C07",
-	"corpus cases: generated corpora (5-40 documents in 2-6 batches with updates and deletes; text with positions, keyword, numeric, date and geo fields, missing or multi-valued, values on encoding boundaries; in-memory / file system, merger off or on, segment version 1 or 2) x generated query trees (depth <= 4, up to 14 clauses, every public query kind); "+
-		"one evaluation = one query on one corpus, observed through AllMatches, TopNSearch, TopNSearch.SetScore(none) and AllMatches.IncludeLocations and compared with the reference evaluator; non-trivial = the query has a compound node with >= 2 children whose reference result sets are all non-empty and not all identical, on a reader with >= 2 segments and >= 1 pending deletion. "+
-		"exhaustive cases: every assignment of 3 terms to 5 documents in 2 segments (4 split points) x every boolean shape of depth <= 2 over the three term leaves; non-trivial as above without the deletion (these indexes have none)")
+	"corpus cases: generated corpora (5-40 documents in 2-6 batches with updates and deletes; text with positions, keyword, numeric, date and geo fields, missing or multi-valued, values on encoding boundaries; in-memory / file system / offline writer (merged), merger off or on, segment version 1 or 2) x generated query trees (depth <= 4, up to 14 clauses, every public query kind of the property); "+
+		"one evaluation = one query on one corpus, observed through AllMatches, TopNSearch, TopNSearch.SetScore(none) and AllMatches.IncludeLocations and compared with the reference evaluator (own analysed model); non-trivial = the query was executed and judged, has a compound node with >= 2 children whose reference result sets are all non-empty and not all identical, and the reader has >= 2 segments and >= 1 pending deletion (both measured on the reader). "+
+		"exhaustive cases: every assignment of 3 terms to 5 documents in 2 segments (4 split points; a sixth document holding all terms is deleted by the second batch, so every index has a pending deletion) x every boolean shape of depth <= 2 over the three term leaves (327 shapes), AllMatches and SetScore(none) for every pair; an index counts as one distinct non-trivial item when the rule above holds for at least one of its shapes; merged twins (same documents through the offline writer) are extra evaluations outside the scope")
 
 // Case is one corpus with the queries run against one reader of it, in this order.
 type Case struct {
